@@ -225,6 +225,10 @@ def _layer_norm_batch_rule(
         raise NotImplementedError(
             "Batching over LayerNorm parameters is not supported."
         )
+    # The normalised axes are the trailing ones: keep the batch axis in front of them.
+    if x_bdim is not None and x_bdim != 0:
+        x = jnp.moveaxis(x, x_bdim, 0)
+        x_bdim = 0
     out = LayerNormPlugin._PRIM.bind(x, scale, bias, epsilon=epsilon)
     return out, x_bdim
 
